@@ -46,6 +46,34 @@ ASSUMED = {
 }
 
 
+class VItemsNested(SV):
+    """items() of a dict whose values are dicts held by value"""
+    kind = 'itemsnested'
+
+    def __init__(self, ref, keys, nkeys, kkind):
+        self.ref, self.keys, self.nkeys, self.kkind = ref, keys, nkeys, kkind
+
+    def sv_iter(self, eng, st, s):
+        from .values import VInner
+        return z3.IntVal(0), self.nkeys, (lambda st2, k: VTuple([eng.wrap(self.kkind, self.keys[k]),
+                                                                   VInner(self.ref, self.keys[k])]))
+
+
+class VZip(SV):
+    """zip(a, b): pairs up to the shorter length"""
+    kind = 'zip'
+
+    def __init__(self, a, b):
+        self.a, self.b = a, b
+
+    def sv_iter(self, eng, st, s):
+        lo1, hi1, e1 = eng.iter_spec(st, self.a, s)
+        lo2, hi2, e2 = eng.iter_spec(st, self.b, s)
+        n1, n2 = hi1 - lo1, hi2 - lo2
+        n = z3.If(n1 <= n2, n1, n2)
+        return z3.IntVal(0), z3.If(n >= 0, n, 0), (lambda st2, k: VTuple([e1(st2, lo1 + k), e2(st2, lo2 + k)]))
+
+
 class VEnumerate(SV):
     """enumerate(seq): pairs (position, element)"""
     kind = 'enumerate'
@@ -606,6 +634,10 @@ class World:
             if seq.kind == 'ref' and isinstance(s0.node(seq), Arr):
                 n = s0.node(seq)
                 sk.env[g.target.id] = eng.wrap(n.elem, n.a[k])
+            elif seq.kind == 'ref' and isinstance(s0.node(seq), Dict) and s0.node(seq).seq is not None:
+                from .values import VInner
+                n = Arr('val', None, s0.node(seq).seq, 'list')
+                sk.env[g.target.id] = VInner(seq, k)
             elif hasattr(seq, 'sv_iter'):
                 # an extension value that knows how it is iterated (position lo + k of its own sequence)
                 lo_, hi_, elem_ = seq.sv_iter(eng, s0, e)
@@ -623,6 +655,34 @@ class World:
                 raise EngineError('%s:%d: comprehension element must be side-effect free with a normal outcome'
                                   % (eng.rel, e.lineno))
             kinds = {x.val.kind for x in normal}
+            if kinds <= {'inner', 'dictval', 'none'} and kinds != {'none'}:
+                # a sequence of dicts (held by value), some positions possibly None
+                if excs:
+                    raise EngineError('%s:%d: raising comprehension of dicts' % (eng.rel, e.lineno))
+                rows = [(z3.And(x.st.pc[base_len:] or [z3.BoolVal(True)]), x.val, eng.as_dict(x.st, x.val) if x.val.kind != 'none' else None)
+                        for x in normal]
+                some = [r for r in rows if r[2] is not None][0][2]
+                if some[5] or (some[0], some[1]) != ('str', 'val'):
+                    raise EngineError('%s:%d: comprehension of dicts of kind %s -> %s' % (eng.rel, e.lineno, some[0], some[1]))
+                empty_d = z3.K(Str, z3.BoolVal(False))
+                drow, vrow, none = empty_d, some[3], z3.BoolVal(False)
+                for cnd, v, d in reversed(rows):
+                    drow = z3.If(cnd, d[2] if d is not None else empty_d, drow)
+                    vrow = z3.If(cnd, d[3] if d is not None else some[3], vrow)
+                    none = z3.If(cnd, z3.BoolVal(d is None), none)
+                q = fresh('q', I)
+                sn = s0.copy()
+                node = eng.seq_of_dicts(sn, 'comp', n.n)
+                nones = fresh('comp_none', z3.ArraySort(I, B))
+                sub = lambda t: z3.substitute(t, (k, q))
+                sn.assume(z3.ForAll([q], z3.Implies(z3.And(0 <= q, q < n.n),
+                                                    z3.And(node.idom[q] == sub(drow), node.val[q] == sub(vrow),
+                                                           nones[q] == sub(none))),
+                                    patterns=[node.idom[q]]),
+                          z3.ForAll([q], z3.Implies(z3.And(0 <= q, q < n.n), nones[q] == sub(none)), patterns=[nones[q]]))
+                node.nones = nones
+                out.append(Result(sn, sn.alloc(node)))
+                continue
             if len(kinds) != 1 or kinds.pop() not in ('int', 'real', 'bool', 'str'):
                 raise EngineError('%s:%d: comprehension element kinds %s' % (eng.rel, e.lineno, sorted(x.val.kind for x in normal)))
             # several normal outcomes (mutually exclusive path conditions): the element is their case distinction
@@ -749,6 +809,8 @@ class World:
             if name == 'all':
                 return [Result(st, VBool(z3.ForAll([q], z3.Implies(rng, n.a[q]), patterns=[n.a[q]])))]
             return [Result(st, VBool(z3.Exists([q], z3.And(rng, n.a[q]), patterns=[n.a[q]])))]
+        if name == 'zip' and len(args) == 2:
+            return [Result(st, VZip(args[0], args[1]))]
         if name == 'enumerate' and len(args) == 1:
             return [Result(st, VEnumerate(args[0]))]
         if name in ('max', 'min') and len(args) == 2 and all(a.kind in ('int', 'bool') for a in args):
@@ -790,6 +852,13 @@ class World:
             return self.isinstance_(eng, st, args[0], args[1], node)
         if name in ('frozenset', 'set', 'tuple', 'list') and len(args) == 1 and args[0].kind == 'tuple':
             return [Result(st, VTuple(list(args[0].items), name == 'list'))]
+        if name in ('list', 'tuple') and len(args) == 1 and args[0].kind == 'ref' and isinstance(st.node(args[0]), Dict) \
+                and st.node(args[0]).seq is not None:
+            st = st.copy()
+            n0 = st.node(args[0])
+            n1 = n0.replace()
+            n1.nones = getattr(n0, 'nones', None)
+            return [Result(st, st.alloc(n1))]
         if name in ('list', 'tuple') and len(args) == 1 and args[0].kind == 'ref' and isinstance(st.node(args[0]), Arr):
             st = st.copy()
             n0 = st.node(args[0])
@@ -905,6 +974,22 @@ class World:
         if recv.kind == 'dictval':
             if name == 'items' or name == 'keys':
                 raise EngineError('iteration over a detached dict value')
+        if recv.kind == 'inner' and name == 'update' and len(args) == 1 and not kwargs:
+            # d.update(e) on a dict held by value inside its container: keys of e are set / overwritten, others kept
+            src = eng.as_dict(st, args[0])
+            n = st.node(recv.ref)
+            if src is None or src[5] or src[0] != n.inner[0] or src[1] != n.inner[1]:
+                raise EngineError('%s:%d: update with %s' % (eng.rel, line, args[0].kind))
+            st = st.copy()
+            k = fresh('k', eng.sort_of_kind(n.inner[0]))
+            drow = fresh('upd_dom', n.idom[recv.key].sort())
+            vrow = fresh('upd_val', n.val[recv.key].sort())
+            od, ov = n.idom[recv.key], n.val[recv.key]
+            st.assume(z3.ForAll([k], drow[k] == z3.Or(od[k], src[2][k]), patterns=[drow[k]]),
+                      z3.ForAll([k], vrow[k] == z3.If(src[2][k], src[3][k], ov[k]), patterns=[vrow[k]]))
+            n2 = st.node(recv.ref)
+            st.setnode(recv.ref, n2.replace(idom=z3.Store(n2.idom, recv.key, drow), val=z3.Store(n2.val, recv.key, vrow)))
+            return [Result(st, NONE)]
         raise EngineError('%s:%d: method %s on %s' % (eng.rel, line, name, recv.kind))
 
     def dict_method(self, eng, st, recv, n, name, args, kwargs, node):
@@ -952,7 +1037,8 @@ class World:
             st2, keys, nkeys = self.dict_order(eng, st, recv)
             n = st.node(recv)
             if n.inner:
-                raise EngineError('items() of a nested dict')
+                # (key, the dict stored under it - read through the container)
+                return [Result(st, VItemsNested(recv, keys, nkeys, n.kkind))]
             k = fresh('k', I)
             vals = fresh('itemvals', z3.ArraySort(I, eng.sort_of_kind(n.vkind)))
             st = st.copy()
